@@ -6,3 +6,23 @@ use std::collections::hash_map::RandomState;
 pub fn fixed_random_state() -> RandomState {
     unsafe { std::mem::transmute::<(u64, u64), RandomState>((1, 2)) }
 }
+
+// ---- stubs cutting the regex / uuid / chrono parsers (Kani cannot compile regex_automata: compiler ICE).
+// None of them is on a numeric path; they return an error so the stubbed paths yield `Variant::Empty`.
+use opcua::types::{status_code::StatusCode, DateTime, ExpandedNodeId, Guid, NodeId};
+pub fn stub_node_id_from_str(_s: &str) -> Result<NodeId, StatusCode> {
+    Err(StatusCode::BadNodeIdInvalid)
+}
+pub fn stub_expanded_node_id_from_str(_s: &str) -> Result<ExpandedNodeId, StatusCode> {
+    Err(StatusCode::BadNodeIdInvalid)
+}
+pub fn stub_guid_from_str(_s: &str) -> Result<Guid, ()> {
+    Err(())
+}
+pub fn stub_date_time_from_str(_s: &str) -> Result<DateTime, ()> {
+    Err(())
+}
+/// `format!` on paths irrelevant to the contract dominates CBMC time; stubbed to an empty string.
+pub fn stub_format(_args: std::fmt::Arguments<'_>) -> String {
+    String::new()
+}
